@@ -9,6 +9,10 @@ import pyccolo as pyc
 import rw_common as rw
 
 
+COMP_BRACKETS = ("after_comprehension_elt", "after_comprehension_if", "after_dict_comprehension_key", "after_dict_comprehension_value")
+BRACKETS_OF_GUARDS = ("after_for_loop_iter", "after_while_loop_iter") + COMP_BRACKETS
+
+
 def run_case(c, ci):
     fname = "%s-%d>" % (rw.FNAME_PREFIX, ci)
     res = {}
@@ -27,15 +31,37 @@ def run_case(c, ci):
         if c.get("silence"):
             # C10: every loop guard is activated the first time it is handed out (end of the loop's first completed iteration) and
             # never deactivated; from then on no event may come from a node that lies lexically inside that loop's body
+            if c.get("silence") == "comp-first" and not state.get("pre"):
+                # variant: at the first delivery of the run, EVERY guard of a comprehension part is activated (found by name: the guard is named
+                # after the registered node), whether or not the part's own bracket event is subscribed
+                state["pre"] = True
+                import re as _re
+                for gname in list(self.guards):
+                    m_ = _re.fullmatch(r".*?(\d+)", gname)
+                    part = self.ast_node_by_id.get(int(m_.group(1))) if m_ else None
+                    if isinstance(part, ast.expr) and gname not in state["silenced"]:
+                        self.activate_guard(gname)
+                        state["silenced"][gname] = ((part.lineno, part.col_offset), (part.end_lineno, part.end_col_offset))
             line = getattr(node, "lineno", None)
             if line is not None:
+                pos = (line, getattr(node, "col_offset", 0))
+                end = (getattr(node, "end_lineno", line), getattr(node, "end_col_offset", 10 ** 6))
                 for gname, (a, b) in state["silenced"].items():
-                    if a <= line <= b and not (name in ("after_for_loop_iter", "after_while_loop_iter") and g == gname):
-                        state["leaks"].append([name, type(node).__name__, line, [a, b]])
+                    if a <= pos and end <= b and not (name in BRACKETS_OF_GUARDS and g == gname):
+                        state["leaks"].append([name, type(node).__name__, line, [list(a), list(b)]])
             if name in ("after_for_loop_iter", "after_while_loop_iter") and isinstance(g, str) and g in self.guards and g not in state["silenced"]:
                 self.activate_guard(g)
                 # the guarded part is the loop BODY (not the header, not an else clause)
-                state["silenced"][g] = (node.body[0].lineno, node.body[-1].end_lineno) if node is not None else (0, -1)
+                state["silenced"][g] = ((node.body[0].lineno, 0), (node.body[-1].end_lineno, 10 ** 6)) if node is not None else ((0, 0), (-1, 0))
+            if name in COMP_BRACKETS and isinstance(g, str) and g in self.guards and g not in state["silenced"] and node is not None:
+                # ... likewise the guard of a comprehension's element / key / value / condition: the guarded part is that expression
+                self.activate_guard(g)
+                state["silenced"][g] = ((node.lineno, node.col_offset), (node.end_lineno, node.end_col_offset))
+        if c.get("silence") and c.get("nested_ctx") and state["silenced"] and state["count"] % 3 == 0:
+            # a handler that does its bookkeeping under a nested context of its own tracer (as handlers running library code do):
+            # entering a context while guards are active must leave them active
+            with self.tracing_disabled():
+                pass
         if guard_schedule is not None and isinstance(g, str) and g in self.guards:
             if g not in state["seen"]:
                 state["seen"].append(g)
